@@ -385,7 +385,7 @@ def stacks(draw):
 
 
 INVALID_KINDS = [
-    "unknown_key", "str_for_bool", "str_for_int", "float_for_int", "scalar_for_list",
+    "unknown_key", "str_for_bool", "str_for_int", "float_for_int", "bool_for_int", "int_for_bool", "scalar_for_list",
     "nonstr_list_item", "disable_all_str", "disable_all_int", "override_no_module",
     "override_nonstr_module", "top_module", "nested_overrides", "overrides_not_list",
     "override_not_table", "extend_nonstr", "self_include", "mutual_include", "missing_file",
@@ -414,11 +414,13 @@ def invalid_stacks(draw):
 
     if kind == "unknown_key":
         put([draw(st.sampled_from(["no_such_option", "undefined_nam", "Paths", "modul"])), True])
-    elif kind in ("str_for_bool", "str_for_int", "float_for_int", "scalar_for_list", "nonstr_list_item"):
+    elif kind in ("str_for_bool", "str_for_int", "float_for_int", "bool_for_int", "int_for_bool", "scalar_for_list", "nonstr_list_item"):
         opt, val = {
             "str_for_bool": (draw(st.sampled_from(BOOL_CODES + BOOL_OPTS)), "true"),
             "str_for_int": (draw(st.sampled_from(INT_OPTS)), "3"),
             "float_for_int": (draw(st.sampled_from(INT_OPTS)), 2.5),
+            "bool_for_int": (draw(st.sampled_from(INT_OPTS)), draw(st.booleans())),
+            "int_for_bool": (draw(st.sampled_from(BOOL_CODES + BOOL_OPTS)), draw(st.sampled_from([0, 1]))),
             "scalar_for_list": (draw(st.sampled_from(LIST_OPTS)), draw(st.sampled_from(["abc", 3, True]))),
             "nonstr_list_item": (draw(st.sampled_from(LIST_OPTS)), ["ok", 3]),
         }[kind]
